@@ -77,11 +77,12 @@ Definition ray_of (n : nat) (r : lp_result) : list Q :=
                (map (fun j => if Nat.eqb j e then 1 else 0) (seq 0 n))
   end.
 
-(* the tableau rows are the constraint rows divided by row_scale (row equilibration), so a multiplier read off the tableau
-   belongs to the scaled row: the multiplier of the original row i is  y_i / row_scale A_i *)
-Fixpoint unscale (y : list Q) (A : list (list Q)) : list Q :=
+(* the tableau rows are the constraint rows divided by row_scale (row equilibration) and the objective row is the weight vector
+   divided by its row_scale, so a multiplier read off the tableau belongs to the scaled rows: the multiplier of the original row i
+   is  f * y_i / row_scale A_i  with f = row_scale w for the phase-2 objective (f = 1 for the unscaled phase-1 objective) *)
+Fixpoint unscale (f : Q) (y : list Q) (A : list (list Q)) : list Q :=
   match y, A with
-  | yi :: y', Ai :: A' => Qred (yi / row_scale Ai) :: unscale y' A'
+  | yi :: y', Ai :: A' => Qred (f * yi / row_scale Ai) :: unscale f y' A'
   | _, _ => []
   end.
 
@@ -93,12 +94,13 @@ Definition cert_case_check (k : lp_case) : bool :=
   let r := run_case 0 k in
   let n := length (k_c k) in
   let m := length (k_b k) in
-  let y := unscale (dual_of n m r) (k_A k) in
+  let y := unscale (row_scale (weights (k_min k) (k_c k))) (dual_of n m r) (k_A k) in
+  let yf := unscale 1 (dual_of n m r) (k_A k) in
   match k_status k with
   | OPTIMAL =>
       cert_optimal_check tol6 (k_min k) (k_c k) (k_A k) (k_b k) (k_sol k) (k_obj k) y
       && cert_optimal_check 0 (k_min k) (k_c k) (k_A k) (k_b k) (r_solution r) (r_objective r) y
-  | INFEASIBLE => farkas_check (k_c k) (k_A k) (k_b k) y
+  | INFEASIBLE => farkas_check (k_c k) (k_A k) (k_b k) yf
   | UNBOUNDED => ray_check (k_min k) (k_c k) (k_A k) (k_b k) (r_solution r) (ray_of n r)
   | MAX_ITER => true
   end.
